@@ -134,8 +134,17 @@ def walkCentres (v0 v1 : Int × Int) : List Pt :=
     -- axis = 1: position = (interpolation(value), value); `v0[axis - 1]` is `v0[0]`
     (walkRange v0.2 v1.2).map fun (value : Int) => ⟨interp v0.2 v0.1 v1.2 v1.1 value, (value : Rat)⟩
 
-/-- `walk_two_vertices(v0, v1, layers)` (a set) -/
+/-- `(int(px), int(py))`: the pixel a position is read from, as a position with integer coordinates -/
+def toPixel (p : Pt) : Pt := ⟨((truncI p.x : Int) : Rat), ((truncI p.y : Int) : Rat)⟩
+
+/-- `walk_two_vertices(v0, v1, layers)` (a set of pixels):
+    `vertices_to_return.update((int(px), int(py)) for px, py in get_layer_elements(position, layers))` -/
 def walkTwoVertices (v0 v1 : Int × Int) (layers : Nat) : List Pt :=
+  distinct ((walkCentres v0 v1).flatMap fun c => (getLayerElements c layers).map toPixel)
+
+/-- `walk_two_vertices` before repair 5a78257 (defect D22): the set held the float positions themselves,
+    `vertices_to_return.update(get_layer_elements(position, layers))` -/
+def walkTwoVerticesUpstream (v0 v1 : Int × Int) (layers : Nat) : List Pt :=
   distinct ((walkCentres v0 v1).flatMap fun c => getLayerElements c layers)
 
 /-- `list(map(math.ceil, xy))` -/
@@ -149,6 +158,10 @@ def consec {α : Type} : List α → List (α × α)
 /-- the band of `get_interpolation(big_edge, layers, **kwargs)`: the set `all_vertices` -/
 def band (prm : Params) (verts : List Pt) : List Pt :=
   distinct ((consec (verts.map (place prm))).flatMap fun s => walkTwoVertices (ceilPt s.1) (ceilPt s.2) prm.layers)
+
+/-- the band before repair 5a78257 (kept for the witness of defect D22) -/
+def bandUpstream (prm : Params) (verts : List Pt) : List Pt :=
+  distinct ((consec (verts.map (place prm))).flatMap fun s => walkTwoVerticesUpstream (ceilPt s.1) (ceilPt s.2) prm.layers)
 
 /-- squared lengths of the segments of the rescaled/offset polyline, in the order
     `length += np.linalg.norm(xy[ii-1] - xy[ii])` adds their roots -/
